@@ -82,7 +82,7 @@ def diffb(ctx, shard, nshards):
     days, _ = A.pick_days(ctx, shard, nshards, None if ctx.thorough else 150, 100, "c07d")
     rnd = random.Random(ctx.sub_seed("c07d", shard))
     offs = list(range(-45, 46))
-    DREPS = ["ymd"] * 4 + ["ywd", "yd", "ymcw", "ldn", "mdn", "bizda"]
+    DREPS = ["ymd"] * 4 + ["ywd", "yd", "ymcw", "ldn", "mdn", "bizda", "epoch"]
     for a in days:
         bs = [a + o for o in offs if R.NMIN <= a + o <= R.NMAX]
         bs += [rnd.randrange(R.NMIN, R.NMAX + 1) for _ in range(6)]
@@ -93,13 +93,18 @@ def diffb(ctx, shard, nshards):
                 rep = "ymd"
             else:
                 bs = [b for b in bs if R.is_bday(b)]
-        if rep in ("ldn", "mdn"):
+        if rep in ("ldn", "mdn", "epoch"):
             # day numbers in the last 606 days of the range are C01's recorded finding
             if a >= TAIL0:
                 rep = "ymd"
             else:
                 bs = [b for b in bs if b < TAIL0]
         args0, mk, _ = A.REPS[rep]
+        if rep == "epoch":
+            args0 = ["-i", "%s"]
+            bs = [b for b in bs if abs(R.epoch(b)) < 9 * 10 ** 9]      # the line scanner's limit (7.1)
+            if not bs or abs(R.epoch(a)) >= 9 * 10 ** 9 or R.epoch(a) < 0:
+                continue
         lines = [mk(b) for b in bs]
         try:
             out, _ = run_lines(ctx.build, "ddiff", args0 + [mk(a), "-f", "%db"], lines)
@@ -168,6 +173,8 @@ def replay(ctx, subname, case):
     if k == "diff":
         a, b = case["a"], case["b"]
         args0, mk, _ = A.REPS[case.get("rep", "ymd")]
+        if case.get("rep") == "epoch":
+            args0 = ["-i", "%s"]
         out, _ = run_lines(ctx.build, "ddiff", args0 + [mk(a), "-f", "%db"], [mk(b)])
         x = "%db" % R.bdays_between(a, b)
         return None if out[0] == x else {"a": mk(a), "b": mk(b), "expected": x, "actual": out[0]}
